@@ -7,3 +7,29 @@ package multimap
 //@ func SortAlpha
 //@   requires n1 != nil && n2 != nil
 //@   ensures [C06] @lex: result == (n1.Segment < n2.Segment ? 0 - 1 : (n1.Segment == n2.Segment ? 0 : 1))
+//
+// GetOrCreate walks (and extends) the tree along the given path. The recursive tree structure is
+// outside what the contracts express; it is trusted to return the node of that path and to touch only
+// tree nodes.
+//@ func (*Node).GetOrCreate
+//@   trusted
+//@   requires n != nil
+//@   modifies *
+//@   ensures result != nil
+//
+// The balance report's instantiation: a node that carries an account carries an amounts map (both are
+// set together by Report.Insert; trusted as a data-structure invariant of the tree while the report is
+// being filled - Renderer.Render assigns accounts to grouping nodes only after the last Insert).
+//@ func (*Node[balance.Value]).GetOrCreate
+//@   trusted
+//@   requires n != nil
+//@   modifies *
+//@   ensures result != nil && (result.Value.Account != nil ==> result.Value.Amounts != nil)
+//
+// PostOrder applies f to every node of the subtree, children before their parent, each node once.
+// The recursive higher-order traversal over a pointer-linked tree of maps is outside what the
+// contracts can state (no recursive tree predicate); it is trusted.
+//@ func (*Node).PostOrder
+//@   trusted
+//@   requires n != nil
+//@   modifies callbacks
